@@ -372,9 +372,17 @@ func coreHistory(c *Ctx, d *coreDrv) {
 		case p < 90:
 			// RM-placed allocation (recovery style) or placement / resize of an existing ask
 			if len(nodes) > 0 && len(apps) > 0 {
+				// (not a placeholder whose release the core has announced and the shim has not confirmed yet: the shim is
+				//  deleting that pod; a resize racing with the swap is outside the legal stream, see DESIGN 9.2)
+				releasing := map[string]bool{}
+				for _, pc := range s.pendConf {
+					releasing[pc["key"].(string)] = true
+				}
 				keys := []string{}
 				for k := range s.asks {
-					keys = append(keys, k)
+					if !releasing[k] {
+						keys = append(keys, k)
+					}
 				}
 				sort.Strings(keys)
 				if len(keys) > 0 && c.chance(0.5) {
